@@ -794,6 +794,13 @@ def run(prog, rep):
     rep.attempt(table_effects_need_writable, ct, rep)
     rep.attempt(removal_selects_type, ct, rep)
     rep.attempt(position_not_by_truthiness, ct, rep)
+    # a getter returns THE block of its type only if that block's bytes are where its entry says and are its own: the entry size comes
+    # from the block's nBytes at the time of the add (no stale memo), the data is written at the entry's offset, and it has reached the
+    # file when the call returns (another object looking up the type finds the block, not an entry pointing past the end)
+    from ..codecs import Codecs as _CD, no_stale_derived_state as _nsd
+    rep.attempt(_nsd, prog, _CD(prog), rep)
+    rep.attempt(ct.check_c02, rep)
+    rep.attempt(lambda: M.flush_on_exit(ct, rep))
     # a setter on a present type removes, then adds: the add must not refuse a comment / label that the field can hold (the text
     # primitive refuses exactly what does not fit), or the type silently disappears
     from .c13 import string_write_rules
